@@ -176,7 +176,7 @@ impl Scenario for C11 {
     }
 
     fn rule(&self) -> String {
-        "Each run (history): one of the 18 serialisable generator types (IsaacRng/Isaac64Rng over-weighted), any seeding route, native pre-advance 0..=block_len+2, a history of 1..20 next_u32/next_u64/fill_bytes/jump ops with up to 3 destructive crash points (live generator := restore(snapshot(live)), so later snapshots are restores of restores). In one ISAAC history out of six one word of the durable state (a buffered result word or a word of the core's mem) is first set to 0 through the image - generated zero words are far too rare (2^-32 per word) to wait for. The crash point is ENUMERATED: after the pre-advance and after every operation the live generator is serialised (bincode or serde_json; alone, or 'framed' as one member of a larger snapshot `(generator, marker, generator, marker)` whose later members must still be readable; or read back through `deserialize_from` / `from_reader` over a reader that delivers 1..5 bytes per call; or through a `serde_json::Value` document), the original is kept, and a copy restored from the bytes alone runs the whole remaining history plus a 3-block drain; the twin that never serialised, the original and every restored copy must agree value for value, and restored == original where == exists. Each such (history, crash point) pair is one evaluation. (sweep): for one seed, IsaacRng at every index 0..=256 and Isaac64Rng at every (index, half_used) is snapshotted, restored and drained - a complete sweep of the durable buffer states. distinct_nontrivial = distinct (type, format, buffer index at the crash point, half flag) signatures. Further ways the bytes are read back: deserialize_from / from_reader over a reader that delivers 1..5 bytes per call (pretty-printed JSON), and through a serde_json::Value document. Formats also include bincode with its own options() (variable-length integers, zig-zag for signed) and big-endian fixed-width bincode.".into()
+        "Each run (history): one of the 18 serialisable generator types (IsaacRng/Isaac64Rng over-weighted), any seeding route, native pre-advance 0..=block_len+2, a history of 1..20 next_u32/next_u64/fill_bytes/jump ops with up to 3 destructive crash points (live generator := restore(snapshot(live)), so later snapshots are restores of restores). In one ISAAC history out of six one word of the durable state (a buffered result word or a word of the core's mem) is first set to 0 through the image - generated zero words are far too rare (2^-32 per word) to wait for. The crash point is ENUMERATED: after the pre-advance and after every operation the live generator is serialised (bincode or serde_json; alone, or 'framed' as one member of a larger snapshot `(generator, marker, generator, marker)` whose later members must still be readable; or read back through `deserialize_from` / `from_reader` over a reader that delivers 1..5 bytes per call; or through a `serde_json::Value` document), the original is kept, and a copy restored from the bytes alone runs the whole remaining history plus a 3-block drain; the twin that never serialised, the original and every restored copy must agree value for value, and restored == original where == exists. Each such (history, crash point) pair is one evaluation. (sweep): for one seed, IsaacRng at every index 0..=256 and Isaac64Rng at every (index, half_used) is snapshotted, restored and drained - a complete sweep of the durable buffer states. distinct_nontrivial = distinct (type, format, buffer index at the crash point, half flag) signatures. Further ways the bytes are read back: deserialize_from / from_reader over a reader that delivers 1..5 bytes per call (pretty-printed JSON), and through a serde_json::Value document. Formats also include bincode with its own options() (variable-length integers, zig-zag for signed) and big-endian fixed-width bincode. Four more formats sit on a self-describing data model whose serializer and deserializer answer is_human_readable() == false at every level (direct, flatten, internally tagged, untagged).".into()
     }
     fn assumptions(&self) -> Vec<String> {
         vec![
